@@ -194,6 +194,10 @@ pub fn generate(s: &mut Session, tier: &str, rng: &mut Rng) {
             for proto in ["vmess", "trojan", "aes-256-gcm", "2022-blake3-aes-128-gcm"] {
                 ws_case(s, rng, proto, style);
             }
+            // datagram streams behind the WebSocket adapter: every frame of a message is delivered, however many
+            for proto in ["trojan", "vmess-aes", "vmess-chacha"] {
+                crate::c02::stream_udp_case(s, rng, proto, style, true);
+            }
         }
     }
 }
